@@ -349,7 +349,8 @@ func c08Alphabet(tbl []c08Opt) (core, full []string) {
 		case "group":
 			vals := []string{"all", "none", "bogus", "", ",", "all,none", "none,all"}
 			for _, f := range o.Flags {
-				vals = append(vals, f.Name, "no-"+f.Name, "all,no-"+f.Name, "none,"+f.Name, f.Name+",bogus", "bogus,"+f.Name)
+				vals = append(vals, f.Name, "no-"+f.Name, "all,no-"+f.Name, "none,"+f.Name, f.Name+",bogus", "bogus,"+f.Name,
+					f.Name+",all", f.Name+",none", "no-"+f.Name+",all", "no-"+f.Name+",none")
 			}
 			if len(o.Flags) >= 2 {
 				vals = append(vals, o.Flags[0].Name+","+o.Flags[1].Name, "no-"+o.Flags[1].Name+","+o.Flags[0].Name)
@@ -365,6 +366,13 @@ func c08Alphabet(tbl []c08Opt) (core, full []string) {
 			}
 			if hasShort {
 				argsSh = append(argsSh, string([]rune{o.Short}))
+			}
+			if hasShort {
+				for _, f := range o.Flags { // flags exempt from all/none, alone and before/after all: both orders occur in <=3 arguments
+					if !f.All {
+						coreForms = append(coreForms, c08Short(o)+f.Name, c08Short(o)+f.Name+",all", c08Short(o)+"none")
+					}
+				}
 			}
 			if ng < 2 && hasShort && len(o.Flags) > 0 {
 				f0 := o.Flags[len(o.Flags)-1].Name
@@ -765,6 +773,18 @@ func c08LawPairs(doc []c08Opt) []c08LawPair {
 			}
 			for _, b := range boolShorts {
 				add("cluster_eq_separate", []string{"-" + b + sh[1:] + "all"}, []string{"-" + b, sh + "all"})
+			}
+			for _, f := range o.Flags {
+				if f.All {
+					continue
+				}
+				for _, x := range []string{f.Name, "no-" + f.Name} {
+					for _, a := range []string{"all", "none"} {
+						add("exempt_flag_order", []string{sh + x, sh + a}, []string{sh + a, sh + x})
+						add("exempt_flag_order", []string{sh + x + "," + a}, []string{sh + a + "," + x})
+						add("exempt_flag_order", []string{lg + "=" + x, sh + a}, []string{lg + "=" + a + "," + x})
+					}
+				}
 			}
 		}
 	}
@@ -1332,7 +1352,7 @@ func runC08(ctx *Ctx) *Result {
 	c08CheckDashDash(res, doc)
 	c08CheckAmbiguous(res, doc)
 	c08Floor(res, "law.ambiguous_prefix_rejected", 6)
-	for _, l := range []string{"long_eq_short", "unique_prefix_eq_long", "cluster_eq_separate", "eq_arg_eq_next_arg", "group_comma_eq_repeat", "after_dashdash_are_args"} {
+	for _, l := range []string{"long_eq_short", "unique_prefix_eq_long", "cluster_eq_separate", "eq_arg_eq_next_arg", "group_comma_eq_repeat", "exempt_flag_order", "after_dashdash_are_args"} {
 		c08Floor(res, "law."+l, 10)
 	}
 	res.Sample(map[string]any{"law": pairs[len(pairs)/2].Law, "a": pairs[len(pairs)/2].A, "b": pairs[len(pairs)/2].B})
@@ -1381,6 +1401,14 @@ func c08WholeRuns(ctx *Ctx, res *Result, doc []c08Opt, rng *Rng) {
 	for i, p := range pairs {
 		i, p := i, p
 		jobs = append(jobs, func() { c08CheckRunPair(ctx, res, dir, i%nvariants, p) })
+	}
+	// the order of an exempt flag (-Werror) and all / none decides the exit status only on a tree
+	// with warnings and no errors (variant 1): run every such pair there
+	for _, p := range c08LawPairs(doc) {
+		if p.Law == "exempt_flag_order" && len(p.A) >= 2 && p.A[len(p.A)-1] == "dir" && strings.HasPrefix(p.A[1], "-") && !strings.HasPrefix(p.A[1], "--check") {
+			p := p
+			jobs = append(jobs, func() { c08CheckRunPair(ctx, res, dir, 1, p) })
+		}
 	}
 	presOpts := [][]string{{"-g"}, {"-q"}, {"-s"}, {"-e"}, {"-gqse"}, {"-s", "-e"}, {"--gcc-output-format", "--source"}, {"-q", "--explain"}, {"-se", "-g"}, {"-gs"}}
 	bases := [][]string{{"-Wall", "cat/pkg"}, {"-Wall", "-r", "cat"}, {"cat/pkg"}, {"-Wall,no-extra", "cat/pkg/Makefile"}, {"-Wall", "-Werror", "cat/pkg"},
